@@ -294,13 +294,32 @@ CLAIMED = {
              "generated definitions over exact rationals against recording subclasses patched into sigpy.app (every operator / rhs "
              "/ gradf / prox / gamma / step / closure, 1e-12), the real app stepped update by update against exact-rational machines "
              "carrying the generated set-ups (1e-9), 336 option combinations of the constructor against the decision table, byte "
-             "snapshots of y and z.",
+             "snapshots of y and z. Deepened (round 3): COMPLEX data (Props/C14Cplx.lean: the set-ups over inner-product spaces over "
+             "R or C with the real inner product re<.,.>, transfer lemma isAdj_restrict; cg_normal_eq_rc, cg_unique_minimiser_rc, "
+             "gm_gradient_rc, gm_fixed_point_iff_minimiser_rc, kkt_is_minimiser_rc, pdhg/admm_fixed_point_kkt_noG/_G_rc, "
+             "default_steps_gm_rc, the spelled-out C instances cg_unique_minimiser_complex / gm_fixed_point_iff_minimiser_complex); "
+             "END-TO-END JOINS with C12/C13 (Props/C14Join.lean): cgSysK_eq/_symm/_quad/_psd/_hpd (the generated CG operator is "
+             "Hermitian, PSD for lamda >= 0, HPD when lamda > 0 or A injective), cg_route_reaches_minimiser (the GENERATED CG machine "
+             "on the GENERATED system, P=None, any start, max_iter > dim: after K <= dim updates x_K is THE minimiser of the "
+             "documented objective, done() true for every tol >= 0 and, with tol = 0, false before K), cg_route_psd_partial (lamda = 0, "
+             "A not injective: every solution of the system is a minimiser; breakdown iff p in ker A), gm_route_rate (generated gradf "
+             "and default alpha: F(x_k)-F(w) <= ||x0-w||^2/(2 alpha k) un-accelerated, <= 2||x0-w||^2/(alpha (k+2)^2) accelerated, F "
+             "the documented objective), ista_descent_relaxed, pdStep_both_pos, proxfc_data_proxOf, pdhg_route_fejer_noG_partial "
+             "(no G, lamda > 0: the generated steps meet C13's Fejer hypotheses; two hypotheses remain); POWER METHOD "
+             "(Gen/C14Power.lean generated from PowerMethod/Alg/MaxEig; Props/C14Power.lean: pm_step, pm_done_iff, maxEig_passes, "
+             "pm_nondegenerate, pm_estimate_le_lmax = the estimate UNDER-estimates every Rayleigh bound from the 2nd update on, "
+             "pm_estimate_mono, pm_estimate_rayleigh_sandwich, maxeig_default_alpha_gap: alpha = 1/max_eig >= 1/L) with its own "
+             "correspondence stream `power` (real PowerMethod stepped / MaxEig run vs the generated step over rationals).",
         note="Trusted: Lean kernel; translator gen_c14 (its reading of linop/prox constructors: Identity, Multiply(shape, scalar), "
              "Vstack, .H, .N, operator +,*; Prox.__call__ of L2Reg/Conj/Stack transcribed in Model/C14Base.lean — the prox classes are "
-             "C11's subject); NOT proved: convergence of the solver classes to those fixed points (C12/C13), complex data, floating "
-             "point, the power method's UNDER-estimate of max_eig after finitely many iterations (default_steps assumes a Rayleigh "
-             "bound). The objective-gap oracle treats a still-shrinking gap as inconclusive (no alarm).",
-        technique="Lean 4 proof (normal equations, conjugates, KKT fixed points, step conditions) about translator-generated set-ups + step-by-step differential correspondence",
+             "C11's subject); NOT proved: convergence of the PDHG / ADMM solver classes to their fixed points (CG and GradientMethod "
+             "routes are joined end to end with C12/C13 in exact arithmetic; the PDHG route only in part: lamda = 0 without G and "
+             "the set-up with G are not covered), the semi-definite consistent CG case (characterised only), floating point; the "
+             "power method UNDER-estimates max_eig (proved), so alpha*lambda_max can exceed 1 (observed up to 1 + 1.5e-2; no "
+             "objective increase ever observed - reported as an observation); the executable model and driver use real rational "
+             "data (complex data on the real code is exercised by the search oracle). The objective-gap oracle treats a "
+             "still-shrinking gap as inconclusive (no alarm).",
+        technique="Lean 4 proof (normal equations, conjugates, KKT fixed points, step conditions, real and complex data; end-to-end joins with the CG and proximal-gradient theorems; power method) about translator-generated set-ups + step-by-step differential correspondence",
         design="DESIGN.md §3 C14, §9"),
     "C08": dict(
         text="Lean 4 theorems about what the translator extracts from sigpy/conv.py and sigpy/linop.py on every run. "
